@@ -19,7 +19,8 @@ LEVEL_NOTE = ("Trusts scipy.interpolate.splrep/BSpline as the differential refer
 TECHNIQUE = "runtime post-condition monitor (residual bound, identity cases) + differential monitor vs direct SciPy call"
 RULE = ("case = series of 5..80 points (uniform / non-uniform; smooth, noisy or affine) x s in {0} U logU[1e-4, 1e2] (or s "
         "omitted) x {to_function, smooth, spline_smooth}. non-trivial: s > 0 on non-affine data with a residual that "
-        "actually changed the series, or an interpolation case on non-affine data; distinct by case index.")
+        "actually changed the series, or an interpolation case on non-affine data; distinct by case index."
+        " Also: requests after random histories, a second to_function() after an earlier one followed by further processing or by an in-place write through the arrays get() hands out, series centred to zero mean to rounding, levels far from zero.")
 REQUIRED_MONITORS = ["c16:to_function", "c16:smooth_residual", "c16:smooth_zero", "c16:affine", "c16:default_s"]
 ASSUMPTIONS = ["FITPACK non-convergence warnings discard the run (the property's quantifier)"]
 NSHARDS = 16
